@@ -66,6 +66,7 @@ def main():
         for pid in out['props']:
             t0 = time.time()
             env3 = dict(os.environ); env3['PYTHONPATH'] = wt
+            env3['VERIF_EVIDENCE_DIR'] = os.path.join(wt, '_evidence'); env3['VERIF_REPLAY_DIR'] = os.path.join(wt, '_replays')
             rc, o = sh([os.path.join(VERIF, 'check'), pid, '--tier', tier], cwd=VERIF, env=env3, timeout=7200)
             keys = re.findall(r'^\s+key=(.*)$', o, re.M)
             out['checks'][pid] = dict(rc=rc, violations=o.count('VIOLATION property='), keys=keys[:6], wall=round(time.time() - t0, 1),
